@@ -94,6 +94,8 @@ def run(ctx):
 
     probe = {}
     probe_init = None
+    probe_crcr = None
+    lines_stat = Counter()
     evals = 0
     kinds = Counter()
     variants = Counter()
@@ -130,6 +132,36 @@ def run(ctx):
         ctx.violation("corr", what, {"case": cid, "spec": specs.get(cid, ""), "result": kv, "correspondence": name},
                       fingerprint={"kind": kv.get("kind"), "corr": name}, found_input=False)
 
+    LINE_CLAUSES = {
+        "offsets-monotone-in-bounds": "line_offsets does not start with 0 / is not strictly increasing / leaves the html",
+        "offsets-are-line-starts": "line_offsets is not exactly the list of line starts of the html (an offset that is not preceded by a newline, or a line start without an offset): lines() cuts lines in the wrong places",
+        "line-newline": "a line returned by lines() does not end with a newline",
+        "line-tags": "a line returned by lines() has unbalanced / cut / badly nested tags",
+        "line-reopen": "at a newline the open spans are not closed before it and re-opened, in order, at the start of the next line",
+        "line-text": "tags removed and entities decoded, a line of lines() is not the corresponding line of the normalised source (CRLF -> newline, lone CR dropped or replaced by the carriage-return marker at its place)",
+    }
+
+    def judge_lines(cid, kv):
+        """the PER-LINE view of the renderer's output (lines()/line_offsets)"""
+        nonlocal judge_eval
+        lj = kv.get("lines")
+        if lj in (None, "panic", "skip"):
+            return
+        judge_eval += 1
+        lines_stat["renderings"] += 1
+        lines_stat["lines_checked"] += int(kv.get("nlines", "0") or 0)
+        if kv.get("crhset") == "1":
+            lines_stat["with_cr_highlight"] += 1
+            if kv.get("crlf") == "1":
+                lines_stat["with_CRLF_and_cr_highlight"] += 1
+            if kv.get("cr") == "1":
+                lines_stat["with_CR_and_cr_highlight"] += 1
+        elif kv.get("crlf") == "1":
+            lines_stat["with_CRLF_without_cr_highlight"] += 1
+        if lj != "ok":
+            clause, _, cause = lj.partition(":")
+            report_judge(cid, kv, "lines:" + clause, LINE_CLAUSES.get(clause, clause), cause or "-")
+
     for line in out.split("\n"):
         if not line.strip():
             continue
@@ -137,6 +169,9 @@ def run(ctx):
         kind = kv.get("kind")
         if kind == "W":
             probe_init = kv.get("initinsert")
+            continue
+        if kind == "X":
+            probe_crcr = kv.get("crcr")
             continue
         if kind == "V":
             # which LossyUtf8 port the real code follows was PROBED (ab\\xe2 / ab\\xff), not looked up
@@ -299,6 +334,7 @@ def run(ctx):
                 report_judge(cid, kv, "html-text", "HTML with tags removed and entities decoded is not the normalised text of the stream", kv.get("cause", "-"))
             if kv.get("wf") == "1" and j == "panic":
                 report_judge(cid, kv, "render-panic", "HtmlRenderer::render panicked on a well-formed stream")
+            judge_lines(cid, kv)
             if kv.get("wf") == "1" and (",H" in spec or spec.split(" ")[-1].startswith("H")):
                 distinct.add(hashlib.sha1(spec.encode()).hexdigest())
         else:
@@ -318,6 +354,7 @@ def run(ctx):
                 report_judge(cid, kv, "html-text", "HTML with tags removed and entities decoded is not the normalised source", kv.get("cause", "-"))
             if kv.get("html") == "panic":
                 report_judge(cid, kv, "render-panic", "HtmlRenderer::render panicked on a real event stream")
+            judge_lines(cid, kv)
             if kv.get("loc") != "ok":
                 report_judge(cid, kv, "local-ref", "a resolved local reference is not highlighted like its definition")
             nontrivial = int(kv.get("depth", "0") or 0) >= 2 or int(kv.get("ninj", "0") or 0) >= 1
@@ -347,6 +384,15 @@ def run(ctx):
                       {"probe": probe}, fingerprint={"corr": "lossy-probe"}, found_input=False)
     ctx.oblige("corr:lossy+render=LossyUtf8+HtmlRenderer", corr_bad == 0, "%d disagreements; variants %s" % (corr_bad, dict(variants)))
     ctx.oblige("corr:lossySpec=String::from_utf8_lossy", spec_bad == 0, "%d disagreements" % spec_bad)
+    if probe_crcr not in ("0", "1"):
+        corr_bad += 1
+        ctx.violation("corr", "the CR-CR probe of HtmlRenderer::add_text gave no result: %s" % probe_crcr,
+                      {"probe": probe_crcr}, fingerprint={"corr": "crcr-probe"}, found_input=False)
+    if not ctx.replay:
+        # the per-line view must really have been exercised with CRLF under a configured CR highlight
+        ctx.oblige("explore:per-line-view-with-CRLF-and-carriage-return-highlight",
+                   lines_stat["with_CRLF_and_cr_highlight"] >= 50 and lines_stat["lines_checked"] >= 1000,
+                   "renderings with CRLF and a CR highlight: %d, lines checked: %d" % (lines_stat["with_CRLF_and_cr_highlight"], lines_stat["lines_checked"]))
     sizes.sort()
     ctx.coverage.update({
         "evaluations": evals, "distinct_nontrivial": len(distinct),
@@ -379,6 +425,7 @@ def run(ctx):
             "static_layers(no injection created during the run)": multi["wn_static"],
             "staticNice_holds(premise of the static corollary merge_well_nested_partial)": multi["wn_premise"],
             "model_run_passes_stack_discipline(ghost run, with or without the premise)": multi["wn_ghost"]},
+        "per_line_view(lines()/line_offsets)": dict(lines_stat), "cr_cr_behaviour_probed(1 = a CR after a pending CR styles the pending one)": probe_crcr,
         "correspondence_merge_full": {"compared": multi["full_compared"], "equal": multi["full_equal"]},
         "correspondence_merge_locals": {"compared": multi["locals_compared"], "equal": multi["locals_equal"]},
         "correspondence_intersect_ranges": {"compared": multi["ir_compared"], "equal": multi["ir_equal"], "of_which_against_the_real_private_function": multi["ir_real"],
